@@ -559,6 +559,25 @@ fn two_hop_bounds(c: &Call, view: &crate::sim::IxView, idx: usize, cov: &mut Cov
             if !a.is_input && paid > a.threshold as i128 {
                 out.push(viol("C03", "max_input_not_honoured", idx, format!("two-hop: paid {} > stated maximum {}", paid, a.threshold)));
             }
+            // threshold = realised, -1, +1 on forks of the pre-state
+            if out.is_empty() && paid >= 0 && got >= 0 {
+                let realised = if a.is_input { got } else { paid } as u64;
+                let expect: [(bool, Option<u32>); 3] = if a.is_input { [(true, None), (true, None), (false, Some(6036))] } else { [(true, None), (false, Some(6037)), (true, None)] };
+                for (i, thr) in [realised, realised.wrapping_sub(1), realised.wrapping_add(1)].into_iter().enumerate() {
+                    if (i == 1 && realised == 0) || (i == 2 && realised == u64::MAX) {
+                        continue;
+                    }
+                    let mut ix2 = view.ix.clone();
+                    ix2.data[16..24].copy_from_slice(&thr.to_le_bytes());
+                    let mut fork = view.pre.clone();
+                    let r = crate::rt::exec_tx_simple(&mut fork, &crate::rt::Tx { ixs: vec![ix2] });
+                    let good = r.ok == expect[i].0 && (r.ok || r.custom() == expect[i].1);
+                    cov.probe("two_hop_threshold_pm1_forks");
+                    if !good {
+                        out.push(viol("C03", "threshold_boundary", idx, format!("two-hop threshold {} (realised {}): ok={} code={:?}, expected ok={} code={:?}", ["=", "-1", "+1"][i], realised, r.ok, r.custom(), expect[i].0, expect[i].1)));
+                    }
+                }
+            }
         }
     }
 }
